@@ -173,6 +173,10 @@ def observeForward (m : MonState) (l : Nat) (f : Pub) : MonState × Fail :=
       ({ lm with window := lm.window ++ [f.pkid] }, some ("c09-window-exceeded", s!"{lm.window.length + 1} unacknowledged QoS>0 publishes"))
     else ({ lm with window := lm.window ++ [f.pkid], maxWindow := max lm.maxWindow (lm.window.length + 1) }, none)
   if f9.isSome then (setL m l lm, f9) else
+  if f.retain && f.payload.isEmpty then
+    -- a retained message never has an empty payload (an empty retained publish clears the topic)
+    (setL m l lm, some ("c15-retained-unexpected", "retained-flagged forward with an empty payload: an empty retained publish must clear the topic, not be stored or replayed"))
+  else
   if f.retain then
     -- C15: a retained-flagged forward must be the replay of a new non-shared subscription
     match utf8? f.topic with
@@ -500,13 +504,16 @@ def observe (prop : String) (m : MonState) (op : Op) (o : Obs) (ghosts : List Gh
 
 /-- checks at a point where the harness drove the router to idle and every client acknowledged -/
 def atIdle (prop : String) (m : MonState) : Fail :=
-  let fails : List (String × String) := (m.links.zipIdx).filterMap fun (lm, l) =>
+  -- C06: nothing owed (checked for every live link, independently of the delivery checks below)
+  let ackFails : List (String × String) := (m.links.zipIdx).filterMap fun (lm, l) =>
     if !lm.live || m.advClients.contains lm.clientId then none else
-    -- C06: nothing owed
     if !lm.expectAcks.isEmpty then
       some ((match lm.expectAcks.head? with | some (.connack _ _) => "c03-not-serving" | _ => "c06-ack-missing"),
             s!"link {l}: {lm.expectAcks.length} replies still owed at idle, first {repr (lm.expectAcks.head?)}")
-    else if lm.ambiguous then none
+    else none
+  let fails : List (String × String) := (m.links.zipIdx).filterMap fun (lm, l) =>
+    if !lm.live || m.advClients.contains lm.clientId then none else
+    if lm.ambiguous then none
     else
       -- C01: some attribution has every open non-shared subscription caught up
       let done (cfg : List Nat) : Bool := (lm.subs.zipIdx).all fun (s, i) =>
@@ -546,6 +553,6 @@ def atIdle (prop : String) (m : MonState) : Fail :=
       (match h[a]? with | some e => !e.payload.isEmpty | none => false))
     if missing.isEmpty then none
     else some ("c17-undelivered-at-idle", s!"group {g.name}: entries {missing.take 5} (payloads {(missing.take 5).map (fun a => match h[a]? with | some e => showBytes e.payload | none => "?")}) were forwarded to no member although the group stayed non-empty; delivered={g.delivered.length} maybe={g.maybe} stableFrom={g.stableFrom} log={h.length} members={members.map (fun lm => (lm.clientId, describeSubs m lm))}")
-  filt prop ((fails ++ gfails).find? (fun f => relevant prop f.1))
+  filt prop ((ackFails ++ fails ++ gfails).find? (fun f => relevant prop f.1))
 
 end Router.Monitors
